@@ -10,6 +10,8 @@ CLAIMED = {
  'C03': ('every int64 duration (all 2^64 values, plus parse errors) x every clock second 2020..2096 x every IssuedAt: the handler clamp, the SSH epoch arithmetic (float64 via FP theory, amd64 float->uint64) and the X.509 / automation validity computations are executed from SSA; z3 decides validity <= now + min(requested, 24h, IssuedAt+24h-now) with wrap-around excluded by unsigned comparison',
          'A-clock (one reading per request); checkAuth admits an arbitrary session (C01/C06 decide admission); time.ParseDuration = arbitrary int64 or error; library signing calls are sinks; counterexamples are replayed natively with go test -overlay before being reported'),
 }
+CLAIMED['C02'] = ('the /certgen/ endpoint executed end-to-end from SSA down to the library signing calls, which capture the certificate as terms; for every user name, URL, submitted key bytes, configured extension list (<=1 quick / <=3 thorough), realm/CA shape z3 decides: principal/CN = admitted user, key = parse(submitted bytes) that passed the strength predicate, user type / non-CA / ClientAuth, extensions = 5 standard + configured expanded for that user, right signer and issuer; and the same for a second request on the post-state of the first',
+    'library parsers, shell.Expand and signing calls are uninterpreted functions of their actual arguments; that signatures verify under the published keys is outside (x/crypto arithmetic); checkAuth admits an arbitrary user (C01/C06)')
 NA_REASON = {}
 checks = []
 for pid in ALL:
